@@ -214,7 +214,8 @@ package scipipe
 //@   props C09
 //@   noreturn
 //@ func (*BaseProcess).Name(p) (res)
-//@   props C09
+//@   props C09 C15
+//@   deterministic structural
 //@   ensures def: res == p.name
 //@ func (*Task).Auditf(t, msg, parts)
 //@   props C01
@@ -576,7 +577,7 @@ package scipipe
 //@   ensures not-in-place: forall p string :: effCreated[p] && !old(effCreated)[p] ==> !isFinal(t, p)
 
 //@ func (*Task).Execute(t)
-//@   props C01 C02 C03 C05 C06 C09
+//@   props C01 C02 C03 C05 C06 C07 C09
 //@   requires wf: wfTask(t) && t.Process != nil && t.InIPs != nil
 //@   onspawn modifies execSpawned
 //@   onspawn ensures counted: execSpawned == old(execSpawned) + 1
@@ -589,7 +590,8 @@ package scipipe
 //@   ensures returns-only-if-no-leftover-temp-dir[C03]: statNotExist(old(fsEpoch), tmpDirOf(t))
 //@   atsend never-done-with-leftover-temp-dir[C03]: statNotExist(old(fsEpoch), tmpDirOf(t))
 //@   ensures done-sent[C02,C05]: chanSentN(t.Done) == old(chanSentN(t.Done)) + 1
-//@   ensures slots-balanced[C06]: held(t.workflow) == old(held(t.workflow))
+// (a slot that is not given back is lost for the rest of the run: later tasks that would fit wait forever, C07)
+//@   ensures slots-balanced[C06,C07]: held(t.workflow) == old(held(t.workflow))
 //@   ensures skipped-or-finalized[C05,C09]: old(anyOutExists(t)) || (cmdSucceeded(t) && allRenamed(t))
 // Known finding F2: a task with several outputs whose earlier run was killed between two of its renames is skipped on
 // the next run (some output exists) although another output is still missing: the restart does not converge.
@@ -701,14 +703,24 @@ package scipipe
 //@   loop 0 invariant vis: forall k string :: $visited[k] ==> k in kv
 //@   loop 0 invariant nodup: forall i int, j int :: 0 <= i && i < j && j < len(keys) ==> keys[i] != keys[j]
 
+// splitAllPaths: walks up the path one level per round; each round keeps the last segment of the current level, in front
+// of the segments kept so far. So every segment of the path enters the hash input, in order (the top-most level, where
+// Dir and Base agree, ends the walk). baseOf / dirOf are filepath.Base / filepath.Dir as uninterpreted functions.
 //@ func splitAllPaths(path) (res)
 //@   props C14
 //@   deterministic structural
+//@   loop 0 invariant starts-at-the-path-itself[C14]: len(parts) == 0 ==> dir == dirOf(path) && file == baseOf(path)
+//@   loop 0 step moves-up-exactly-one-level[C14]: dir == dirOf(prev(dir)) && file == baseOf(prev(dir))
+//@   loop 0 step keeps-the-segment-in-front[C14]: len(parts) == len(prev(parts)) + 1 && parts[0] == prev(file) && (forall j int :: 1 <= j && j < len(parts) ==> parts[j] == prev(parts)[j - 1])
 
 //@ func (*Task).InIP(t, portName) (res)
 //@   props C09 C14 C15
 //@   deterministic structural
 //@   ensures returns-only-if-present: res != nil && res == t.InIPs[portName]
+//@ func (*Task).InPath(t, portName) (res)
+//@   props C09 C15
+//@   deterministic structural
+//@   ensures returns-only-if-present: t.InIPs[portName] != nil && res == t.InIPs[portName].path
 //@ func (*Task).Param(t, portName) (res)
 //@   props C09 C14 C15
 //@   deterministic structural
@@ -854,14 +866,70 @@ package scipipe
 //@   loop 2 invariant range[C15,C18]: 0 <= $i && $i <= len(subStreamIPs[portName]) && len(paths) == $i
 //@   loop 2 invariant joined[C15,C18]: forall j int :: 0 <= j && j < $i ==> paths[j] == prependOf(applyMods(subStreamIPs[portName][j].path, placeHolder.modifiers))
 
+// process.go initDefaultPathFuncs (C15): the default output name. It is a function of the task's input names, process
+// name, parameters, tags, the port name and the extension only (structural determinism scan: no map iteration order,
+// time or randomness can reach the result), and it is exactly
+//   base(in_1). ... .base(in_n).sanitized-process-name.p_1_v_1. ... .t_1_w_1. ... .port[.ext]
+// with inputs, parameters and tags each in the order of their sorted names.
+//@ define defaultNameHead(pcs seq[string], t *Task, ins seq[string]) bool = forall j int :: 0 <= j && j < len(ins) ==> pcs[j] == baseOf(t.InIPs[ins[j]].path)
+//@ define defaultNamePairs(pcs seq[string], off int, keys seq[string], n int, m map[string]string) bool = forall j int :: 0 <= j && j < n ==> pcs[off + j] == keys[j] + "_" + m[keys[j]]
+//@ func (*Process).initDefaultPathFuncs$1(t) (res)
+//@   props C15
+//@   deterministic structural
+//@   atcall strings.Join joined-with-dots[C15]: $arg1 == "."
+//@   atcall strings.Join pieces-in-documented-order[C15]: len($arg0) == len($range0) + 1 + len($range1) + len($range2) + 1 + ite(p.PortInfo[outName].extension != "", 1, 0) && defaultNameHead($arg0, t, $range0) && $arg0[len($range0)] == reReplaceAll("[^a-z0-9_\\-\\.]+", toLower(t.Process.name), "_") && defaultNamePairs($arg0, len($range0) + 1, $range1, len($range1), t.Params) && defaultNamePairs($arg0, len($range0) + 1 + len($range1), $range2, len($range2), t.Tags) && $arg0[len($range0) + 1 + len($range1) + len($range2)] == outName && (p.PortInfo[outName].extension != "" ==> $arg0[len($range0) + 2 + len($range1) + len($range2)] == p.PortInfo[outName].extension)
+//@   atcall strings.Join names-are-the-sorted-keys[C15]: sortedKeysOf($range0, dom(t.InIPs)) && sortedKeysOf($range1, dom(t.Params)) && sortedKeysOf($range2, dom(t.Tags))
+//@   loop 0 invariant range: 0 <= $i && $i <= len($range) && len(pathPcs) == $i && t == old(t) && sortedKeysOf($range, dom(t.InIPs))
+//@   loop 0 invariant input-basenames: forall j int :: 0 <= j && j < $i ==> pathPcs[j] == baseOf(t.InIPs[$range[j]].path)
+//@   loop 1 invariant range: 0 <= $i && $i <= len($range) && len(pathPcs) == len($range0) + 1 + $i && t == old(t) && sortedKeysOf($range0, dom(t.InIPs)) && sortedKeysOf($range, dom(t.Params))
+//@   loop 1 invariant head-kept: defaultNameHead(pathPcs, t, $range0) && pathPcs[len($range0)] == reReplaceAll("[^a-z0-9_\\-\\.]+", toLower(t.Process.name), "_")
+//@   loop 1 invariant params: defaultNamePairs(pathPcs, len($range0) + 1, $range, $i, t.Params)
+//@   loop 2 invariant range: 0 <= $i && $i <= len($range) && len(pathPcs) == len($range0) + 1 + len($range1) + $i && t == old(t) && sortedKeysOf($range0, dom(t.InIPs)) && sortedKeysOf($range1, dom(t.Params)) && sortedKeysOf($range, dom(t.Tags))
+//@   loop 2 invariant head-kept: defaultNameHead(pathPcs, t, $range0) && pathPcs[len($range0)] == reReplaceAll("[^a-z0-9_\\-\\.]+", toLower(t.Process.name), "_") && defaultNamePairs(pathPcs, len($range0) + 1, $range1, len($range1), t.Params)
+//@   loop 2 invariant tags: defaultNamePairs(pathPcs, len($range0) + 1 + len($range1), $range, $i, t.Tags)
+
+// process.go SetOut (C15): the path function built from an output-path pattern. Same shape as formatCommand: one
+// substitution site per placeholder found, and at that site the replacement is the documented value for the type.
+// The out-port case calls another out-port's path function, a function value stored in a map: its result is the
+// uninterpreted pathFuncResult (user code may be behind it; assumed free of side effects like in NewTask).
+//@ ghost func pathFuncResult(f ref, t ref) string
+//@ extern fieldcall:Process.PathFuncs(task) (res)
+//@   ensures def: res == pathFuncResult($fn, task)
+//@ func (*Process).SetOut$1(t) (res)
+//@   props C15
+//@   atcall strings.Replace every-occurrence-replaced[C15]: $arg3 < 0 && $arg1 == match[0] && $arg2 == replacement
+// Known finding F11 (the SetOut twin of F5): every round replaces in the evolving path, so placeholder-like text inside
+// an inserted value is replaced again by a later round.
+//@   atcall strings.Replace inserted-text-is-not-expanded-again[C15]: !matches(replacement, "{(o|os|i|is|p|t):([^{}]+)}")
+//@   atcall strings.Replace parsed-as-name-bar-modifiers[C15]: phType == match[1] && portName == splitOf(match[2], "|")[0] && len(restParts) == len(splitOf(match[2], "|")) - 1 && (forall k int :: 0 <= k && k < len(restParts) ==> restParts[k] == splitOf(match[2], "|")[k + 1])
+//@   atcall strings.Replace known-type[C15]: phType == "i" || phType == "o" || phType == "p" || phType == "t"
+//@   atcall strings.Replace case-i[C15]: phType == "i" ==> t.InIPs[portName] != nil && replacement == ite(len(restParts) > 0, applyMods(t.InIPs[portName].path, restParts), t.InIPs[portName].path)
+//@   atcall strings.Replace case-p[C15]: phType == "p" ==> portName in t.Params && replacement == ite(len(restParts) > 0, applyMods(t.Params[portName], restParts), t.Params[portName])
+//@   atcall strings.Replace case-t[C15]: phType == "t" ==> portName in t.Tags && replacement == ite(len(restParts) > 0, applyMods(t.Tags[portName], restParts), t.Tags[portName])
+//@   atcall strings.Replace case-o[C15]: phType == "o" ==> portName in t.Process.PathFuncs && replacement == ite(len(restParts) > 0, applyMods(pathFuncResult(t.Process.PathFuncs[portName], t), restParts), pathFuncResult(t.Process.PathFuncs[portName], t))
+//@   loop 0 invariant range: 0 <= $i && $i <= len(matches)
+//@   loop 0 invariant placeholders-of-the-pattern: matches == reFindAll("{(o|os|i|is|p|t):([^{}]+)}", pathPattern) && t == old(t)
+
 // process.go initPortsFromCmdPattern (C18): the join separator of a placeholder part "join:SEP" is SEP, all of it.
 // (The parts are the |-separated pieces of a placeholder body, which contains neither braces nor bars: that is the
 // hypothesis on a and b in the step clause; it is a consequence of the placeholder pattern and of
 // strings.Split that is not proved here.)
 //@ axiom re.join.group: forall a string, b string :: fullMatch(a, "[^{}|]*") && !contains(a, "join:") && fullMatch(b, "[^{}|]+") ==> reGroup("join:([^{}|]+)", a + "join:" + b, 1) == b
+//@ axiom re.ext.group: forall e string :: fullMatch(e, "[a-z0-9._\\-]+") ==> reGroup("\\.([a-z0-9\\.\\-\\_]+)", "." + e, 1) == e
 //@ func (*Process).initPortsFromCmdPattern(p, cmd, params)
-//@   props C18
+//@   props C15 C18
 //@   modifies *
+//@   loop 0 step port-type-and-name-come-from-the-placeholder[C15]: portType == ms[prev($i)][1] && portName == splitOf(ms[prev($i)][2], "|")[0] && p.PortInfo[portName] != nil && p.PortInfo[portName].portType == portType
+//@   loop 1 invariant type-kept: p.PortInfo[portName] != nil && p.PortInfo[portName].portType == portType
+//@   loop 1 step extension-is-the-text-after-the-dot[C15]: forall e string :: part == "." + e && fullMatch(e, "[a-z0-9._\\-]+") ==> p.PortInfo[portName].extension == e
+//@   loop 2 invariant out-ports-made[C15]: forall k string :: $visited[k] && p.PortInfo[k] != nil && (p.PortInfo[k].portType == "o" || p.PortInfo[k].portType == "os") ==> k in p.outPorts
+//@   loop 2 invariant streams-flagged[C15,C17]: forall k string :: $visited[k] && p.PortInfo[k] != nil && p.PortInfo[k].portType == "os" ==> p.PortInfo[k].doStream
+//@   loop 2 invariant in-ports-made[C15]: forall k string :: $visited[k] && p.PortInfo[k] != nil && p.PortInfo[k].portType == "i" ==> k in p.inPorts
+//@   loop 2 invariant param-ports-made[C15]: forall k string :: $visited[k] && p.PortInfo[k] != nil && p.PortInfo[k].portType == "p" && !(k in params) ==> k in p.inParamPorts
+//@   loop 0 invariant stable: p == old(p) && p.PortInfo == old(p.PortInfo)
+//@   loop 1 invariant stable: p == old(p) && p.PortInfo == old(p.PortInfo)
+//@   loop 2 invariant stable: p == old(p) && p.PortInfo == old(p.PortInfo)
+//@   ensures every-placeholder-kind-got-its-port[C15,C17]: forall k string :: k in p.PortInfo && p.PortInfo[k] != nil ==> ((p.PortInfo[k].portType == "o" || p.PortInfo[k].portType == "os") ==> k in p.outPorts) && (p.PortInfo[k].portType == "os" ==> p.PortInfo[k].doStream) && (p.PortInfo[k].portType == "i" ==> k in p.inPorts) && (p.PortInfo[k].portType == "p" && !(k in params) ==> k in p.inParamPorts)
 //@   loop 1 step join-separator-is-whole-text-after-join[C18]: forall a string, b string :: part == a + "join:" + b && fullMatch(a, "[^{}|]*") && !contains(a, "join:") && fullMatch(b, "[^{}|]+") ==> p.PortInfo[portName].join && p.PortInfo[portName].joinSep == b
 // ---------------------------------------------------------------------------
 // C16 / C04: wiring (port.go), readiness (baseprocess.go), starting processes (workflow.go)
@@ -1462,9 +1530,14 @@ package scipipe
 //@   modifies new(BaseIP.path), new(BaseIP.id), new(BaseIP.auditInfo)
 //@   ensures fresh: res != nil && fresh(res) && res.path == path && res.auditInfo == nil
 
+// settings.go getBufsize: reads the environment, changes nothing (the size itself is not relied upon anywhere).
+//@ extern os.LookupEnv(key) (val, ok)
+//@ extern strconv.Atoi(s) (n, err)
+//@ func getBufsize() (res)
+//@   props C04
 //@ func NewInPort(name) (inp)
 //@   props C04
-//@   trusted reads SCIPIPE_BUFSIZE via getBufsize (os.LookupEnv, strconv); only freshness and emptiness of the new port are relied upon
+//@   trusted the composite literal also zero-initialises the embedded close lock (an embedded sub-object whose address is not in the allocation model); only freshness and emptiness of the new port are relied upon
 //@   modifies new(InPort.Chan), new(InPort.name), new(InPort.process), new(InPort.RemotePorts), new(InPort.ready), new(map[string]*OutPort), new(chan)
 //@   ensures fresh: inp != nil && fresh(inp) && inp.Chan != nil && fresh(inp.Chan) && inp.RemotePorts != nil && fresh(inp.RemotePorts) && len(inp.RemotePorts) == 0 && !inp.ready && inp.name == name
 //@   ensures empty-channel: chanSentN(inp.Chan) == 0 && chanRecvN(inp.Chan) == 0 && !chanClosed(inp.Chan)
